@@ -34,7 +34,7 @@ public:
     }
     void simplifications(const Desc& d, Vec<Desc>& out) {
         // configuration knobs toward their defaults
-        static const char* const knobs[] = { "repeat", "reverse", "shuffle", "run_ignored", "verbose", "color", "use_ci", "rand_mode", "clock_start", "clock_step" };
+        static const char* const knobs[] = { "via_api", "repeat", "reverse", "shuffle", "run_ignored", "verbose", "color", "use_ci", "rand_mode", "clock_start", "clock_step" };
         for (size_t k = 0; k < sizeof knobs / sizeof knobs[0]; k++) if (d.pi(knobs[k]) != 0) { Desc c = d; c.p[knobs[k]] = 0; out.push_back(c); }
         if (d.pi("repeat") > 2) { Desc c = d; c.p["repeat"] = 2; out.push_back(c); }
         if (!d.ps("package").empty()) { Desc c = d; c.sp.erase("package"); out.push_back(c); }
